@@ -119,7 +119,10 @@ def judge(res, scratch, recs, cigar, reports=None, names=None):
     from gaftools.cli import stat
 
     gaf = os.path.join(scratch, "in.gaf")
-    fw.write_text(gaf, "".join(r.line() + "\n" for r in recs))
+    text = "".join(r.line() + "\n" for r in recs)
+    if len(text) % 7 == 3:
+        text = text[:-1]  # some files end without a newline (which ones is a deterministic function of the content)
+    fw.write_text(gaf, text)
     outp = os.path.join(scratch, "report.txt")
     if os.path.exists(outp):
         os.remove(outp)
